@@ -87,13 +87,21 @@ def objEntries (j : Json) : D (List (String × Json)) :=
   | .obj kvs => pure (kvs.toList.map fun ⟨k, v⟩ => (k, v))
   | _ => throw ()
 
+/-- keep one entry per key (a Go map holds one value per key). Different spellings of one integer
+    ("0", "00", "-0") overwrite each other in document order in Go; document order is not
+    available here, so the entry that is last in key order is kept — the generators never emit
+    two spellings of one key. -/
+def dedupKeys {α} (l : List (Int × α)) : List (Int × α) :=
+  l.foldl (fun acc kv => acc.filter (·.1 ≠ kv.1) ++ [kv]) []
+
 /-- `map[int]*big.Int`. -/
 def intMap (j : Json) : D IntMap :=
   match j with
   | .null => pure []
   | .obj _ => do
     if (leafI? j).isSome || (leafB? j).isSome then throw ()
-    (← objEntries j).mapM fun (k, v) => do pure (← parseIntKey k, ← big v)
+    let l ← (← objEntries j).mapM fun (k, v) => do pure (← parseIntKey k, ← big v)
+    pure (dedupKeys l)
   | _ => throw ()
 
 /-- `map[string]*big.Int`. -/
@@ -144,7 +152,7 @@ def rangeProofs (j : Json) : D (Option (List (Int × List (Option RangeProof))))
         | .arr a => a.toList.mapM rangeProof
         | _ => throw () : D (List (Option RangeProof)))
       pure (key, ps)
-    pure (some l)
+    pure (some (dedupKeys l))
   | _ => throw ()
 
 def proofD (j : Json) : D ProofD := do
